@@ -68,6 +68,9 @@ func runC16(c *Ctx) {
 	for k := 0; k < c.N(60, 1500); k++ {
 		cfg := randCfg(r)
 		cfg.NSizes = 27 + r.Intn(229)
+		if k%2 == 1 {
+			cfg.NSizes = r.Pick(30, 31, 32, 33, 33) // tables that end in a rows-event or GTID entry (non-zero last entry)
+		}
 		ver := r.Bytes(r.Intn(51))
 		for i := range ver {
 			if ver[i] == 0 {
@@ -94,6 +97,21 @@ func runC16(c *Ctx) {
 		if impl.String() != model.String() {
 			c.R.Add(vh.Mismatch{Kind: "corr", What: "Format differs from the model", Case: req.String(), Model: model.String(), Impl: impl.String(), InDomain: true})
 		}
+		// the per-type header size: for every type the table announces, HeaderSize is the entry the master wrote for it
+		// (the last announced type included)
+		if sizes, ok := resp.Nth(5).Hex(); ok && impl.String() == expect.String() {
+			f, _ := replication.NewMysql56BinlogEvent(vh.Exact(ev)).Format()
+			for t := 1; t <= len(sizes) && t <= 255; t++ {
+				got := vh.Try(func() vh.Val { return vh.Ok(vh.I(int64(f.HeaderSize(byte(t))))) })
+				c.R.Dist["header_size_lookups"]++
+				if want := vh.Ok(vh.I(int64(sizes[t-1]))); got.String() != want.String() {
+					c.R.Add(vh.Mismatch{Kind: "spec", What: "HeaderSize differs from the entry of the header-size table the master wrote for that event type",
+						Case: fmt.Sprintf("type %d of a table of %d entries; %s", t, len(sizes), req.String()), Expected: want.String(), Impl: got.String(), InDomain: true})
+					break
+				}
+			}
+			c.R.Count(fmt.Sprintf("header-size/last-entry-nonzero%v", len(sizes) > 0 && sizes[len(sizes)-1] != 0))
+		}
 		// header fields of the same event
 		hv := implHeader(ev)
 		want := vh.L(vh.Ok(vh.B(true)), vh.Ok(vh.I(15)), vh.Ok(vh.U(uint64(h.Flags))), vh.Ok(vh.U(uint64(h.TS))), vh.Ok(vh.U(uint64(h.SID))), vh.Ok(vh.I(int64(len(ev)))), vh.Ok(vh.U(uint64(h.Next))))
@@ -119,6 +137,27 @@ func runC16(c *Ctx) {
 			c.R.Count("format-malformed")
 			if mm.String() != mi.String() {
 				c.R.Add(vh.Mismatch{Kind: "corr", What: "Format differs from the model on a malformed event", Case: vh.Sprintf("x%x", b), Model: mm.String(), Impl: mi.String()})
+			}
+		}
+	}
+	// HeaderSize over arbitrary tables (BinlogFormat is a public struct): entry t-1 for every type t = 1 .. len
+	for k := 0; k < c.N(40, 600); k++ {
+		n := r.Pick(1, 2, 27, 32, 35, 40, 160, 254, 255, 1+r.Intn(255))
+		tab := r.Bytes(n)
+		for i := range tab {
+			if tab[i] == 0 {
+				tab[i] = byte(1 + r.Intn(255))
+			}
+		}
+		f := replication.BinlogFormat{FormatVersion: 4, ServerVersion: "x", HeaderLength: 19, HeaderSizes: tab}
+		c.R.Count(fmt.Sprintf("header-size/arbitrary-table/n%d", n/64))
+		for t := 1; t <= n; t++ {
+			got := vh.Try(func() vh.Val { return vh.Ok(vh.I(int64(f.HeaderSize(byte(t))))) })
+			c.R.Dist["header_size_lookups"]++
+			if want := vh.Ok(vh.I(int64(tab[t-1]))); got.String() != want.String() {
+				c.R.Add(vh.Mismatch{Kind: "spec", What: "HeaderSize differs from the entry of the header-size table for that event type",
+					Case: fmt.Sprintf("type %d of the table x%x (%d entries)", t, tab, n), Expected: want.String(), Impl: got.String(), InDomain: true})
+				break
 			}
 		}
 	}
